@@ -274,15 +274,9 @@ class C09(Property):
             return {} if e is None else {"encoder": e}
 
         try:
-            m_ref = pvl.loads(label)
             m = pvl.loads(label)
         except Exception:  # noqa: BLE001
             return vs
-        ro = core.guarded(lambda: pvl.dumps(m_ref, **kw()), 5000)
-        if ro.kind == "ok":
-            text = ro.value
-        else:
-            text = None
         raw = None
         if target in ("path-str", "pathlike"):
             p = iosim.SCRATCH.path()
@@ -313,6 +307,12 @@ class C09(Property):
                 f.detach() if target == "text-stream" else None
             except Exception:  # noqa: BLE001
                 pass
+        # the reference text comes from the very same module object (after
+        # the dump: the PDS3 group conversion is idempotent); two separately
+        # loaded modules may order a set differently (a NaN hashes by
+        # identity), which is none of C09's business
+        ro = core.guarded(lambda: pvl.dumps(m, **kw()), 5000)
+        text = ro.value if ro.kind == "ok" else None
         if out is not None:
             out.evals += 2
             out.inc("probe.dump-" + ("path" if target in (
